@@ -443,6 +443,12 @@ func TestHistories(t *testing.T) {
 	v1.Cfg, v1.Name, v3.Cfg, v3.Name = 1, "dense-docs@cfg1", 3, "dense-docs@cfg3"
 	regress[0].Specs = append(regress[0].Specs, v1, v3)
 	regress[0].Actions = append(regress[0].Actions, Action{Kind: "gen", I: 2}, Action{Kind: "gen", I: 0}, Action{Kind: "gen", I: 3}, Action{Kind: "gen", I: 0}, Action{Kind: "pair", I: 2, J: 3}, Action{Kind: "gen", I: 1}, Action{Kind: "gen", I: 2})
+	// a document whose objects bound their member count and declare optional members before required
+	// ones, with example tests and fakers enabled (every template that orders members reads the same IR)
+	counted := Spec{Name: "counted-objects@cfg1", Cfg: 1, Text: `{"openapi":"3.0.3","info":{"title":"t","version":"1"},"paths":{"/c":{"post":{"operationId":"c","requestBody":{"required":true,"content":{"application/json":{"schema":{"$ref":"#/components/schemas/Counted"}}}},"responses":{"200":{"description":"ok","content":{"application/json":{"schema":{"$ref":"#/components/schemas/Open"}}}}}}}},"components":{"schemas":{"Counted":{"type":"object","maxProperties":3,"minProperties":1,"required":["zeta","mid"],"properties":{"alpha":{"type":"string"},"zeta":{"type":"integer"},"beta":{"type":"boolean"},"mid":{"type":"string"},"inner":{"$ref":"#/components/schemas/Open"}}},"Open":{"type":"object","maxProperties":4,"required":["r2"],"additionalProperties":{"type":"integer"},"properties":{"o1":{"type":"string"},"r2":{"type":"string"},"o3":{"type":"number"}}}}}}`}
+	regress[0].Specs = append(regress[0].Specs, counted)
+	ci := len(regress[0].Specs) - 1
+	regress[0].Actions = append(regress[0].Actions, Action{Kind: "gen", I: ci}, Action{Kind: "pair", I: ci, J: ci}, Action{Kind: "procs", Procs: 1}, Action{Kind: "gen", I: ci}, Action{Kind: "procs", Procs: 16}, Action{Kind: "gen", I: ci})
 	vk.Rapid(u, vk.N(24, 600), regress, drawHistory(pool), func(h History) *vk.Finding {
 		u.Sample(map[string]any{"specs": specNames(h.Specs), "actions": h.Actions})
 		for _, sp := range h.Specs {
